@@ -15,13 +15,13 @@ def _sample(seq, n, rnd):
 
 # (family, max statements, sample size quick, sample size thorough, decoration variants, decorator options); None = all
 FAMILY_PLAN = [
-    ('exc', 5, 600, None, 1, {}), ('exc', 6, 0, 6000, 1, {}),
-    ('loop', 5, 600, None, 1, {}), ('loop', 6, 0, 6000, 1, {}),
-    ('loopexc', 5, 400, None, 1, {}),
-    ('ctx', 5, 300, 3000, 1, {}),
-    ('nestedtry', 6, None, None, 2, dict(balanced_exc=True)), ('nestedtry', 7, 0, None, 1, dict(balanced_exc=True)),
-    ('tryfin', 6, None, None, 1, dict(balanced_exc=True)),
-    ('tryret', 7, 500, None, 1, {}),
+    ('exc', 5, 400, None, 1, {}), ('exc', 6, 0, 6000, 1, {}),
+    ('loop', 5, 400, None, 1, {}), ('loop', 6, 0, 6000, 1, {}),
+    ('loopexc', 5, 300, None, 1, {}),
+    ('ctx', 5, 200, 3000, 1, {}),
+    ('nestedtry', 6, 600, None, 2, dict(balanced_exc=True)), ('nestedtry', 7, 0, None, 1, dict(balanced_exc=True)),
+    ('tryfin', 6, 300, None, 1, dict(balanced_exc=True)),
+    ('tryret', 7, 300, None, 1, {}),
 ]
 
 
@@ -39,6 +39,8 @@ def program_set(tier, seed, loop_else=False):
     tlcs = []
     sk, r = skeleton.enumerate_skeletons(4, 3, 2, loop_else=loop_else)
     tlcs.append(r)
+    if quick:       # the thorough tier decorates every skeleton; the quick tier a seeded sample of them
+        sk = _sample(sk, 1200, rnd)
     progs = skeleton.decorated(sk, 1, seed)
     for fam, n, nq, nt, variants, dopts in FAMILY_PLAN:
         want = nq if quick else nt
@@ -49,20 +51,23 @@ def program_set(tier, seed, loop_else=False):
         sk = [s for s in sk if sum(1 for t in s if t not in ('end', 'else', 'except', 'finally')) > 4]   # <=4 already covered
         if want is not None:
             sk = _sample(sk, want, rnd)
-        progs += skeleton.decorated(sk, variants, seed + len(progs), **dopts)
+        progs += skeleton.decorated(sk, 1 if quick else variants, seed + len(progs), **dopts)
     sk, r = skeleton.enumerate_skeletons(4 if quick else 5, 2, 2, loop_else=loop_else, funcs=True, allowed=skeleton.FAMILIES['fun'])
     tlcs.append(r)
     sk = [s for s in sk if 'def' in s]
     if quick:
         sk = _sample(sk, 500, rnd)
     progs += skeleton.decorated(sk, 1 if quick else 2, seed + 1, closure_bias=True)
-    nrand = 400 if quick else 5000
+    nrand = 300 if quick else 5000
     progs += mprun.random_programs(nrand, seed, lo=2, hi=3 if quick else 4, maxdepth=3, loop_else=loop_else)
     progs += mprun.random_programs(nrand // 2, seed + 7, lo=2, hi=4, maxdepth=3, loop_else=loop_else, with_=False, calls=False,
                                    dele=False, exprstmt=False)      # exception / jump focused
     if mp.CONTEXTS:     # lambdas kept in variables and called later, in and around compound statements
-        progs += mprun.random_programs(400 if quick else 3000, seed + 13, lo=2, hi=4, maxdepth=3, loop_else=loop_else, lam_rate=0.25,
+        progs += mprun.random_programs(300 if quick else 3000, seed + 13, lo=2, hi=4, maxdepth=3, loop_else=loop_else, lam_rate=0.25,
                                        try_=False, with_=False, dele=False, hnames=False)
+    # nested functions that read and rebind the enclosing function's variables, defined and called in and around compound statements
+    progs += mprun.random_programs(300 if quick else 3000, seed + 17, lo=2, hi=4, maxdepth=3, loop_else=loop_else, def_rate=0.12,
+                                   call_rate=0.25, closure_bias=True, with_=False, dele=False, hnames=False)
     # very large random programs add cost, not shapes
     progs = [p for p in progs if len(p['nodes']) <= 45]
     return progs, tlcs
@@ -70,6 +75,12 @@ def program_set(tier, seed, loop_else=False):
 
 def bounds(tier):
     return dict(MaxDec=10) if tier == 'quick' else dict(MaxDec=12, MaxSteps=80)
+
+
+def reports(rec):
+    """The violation reports of an execution record (a monitor keeps the first few distinct ones)."""
+    b = rec.get('bad') or []
+    return [b] if isinstance(b, str) else list(b)
 
 
 def parse_bad(bad):
@@ -168,8 +179,9 @@ def run_monitor(rep, module, classify, loop_else=False, claims_fn=export.all_cla
         if r['bad']:
             nbad += 1
             p = progs[r['pid'] - 1]
-            sig, what = classify(p, parse_bad(r['bad']), claims[r['pid'] - 1])
-            rep.violation(sig, what, dict(source=mp.render(p)[0], decisions=r['dec'], report=r['bad']))
+            for b in reports(r):     # every distinct report of the execution is judged (an earlier one never hides a later one)
+                sig, what = classify(p, parse_bad(b), claims[r['pid'] - 1])
+                rep.violation(sig, what, dict(source=mp.render(p)[0], decisions=r['dec'], report=b))
     rep.set('executions_with_report', nbad)
     for p in progs[:2] + progs[-1:]:
         rep.sample(dict(source=mp.render(p)[0]))
